@@ -153,6 +153,12 @@ func (c *cubicState) Update(packetsAcked int) {
 			srtt = time.Millisecond
 		}
 		c.s.sndCwnd = c.getCwnd(packetsAcked, c.s.sndCwnd, srtt)
+		if c.s.sndCwnd < 1 {
+			// The cubic estimate can fall below one segment (e.g. right
+			// after a timeout, when wMax is 1); a zero window would stop
+			// the connection for good.
+			c.s.sndCwnd = 1
+		}
 	}
 }
 
